@@ -16,11 +16,16 @@ ASSUMPTIONS = [
     "recorded by tests that ran without an enabled plugin are forgotten by a construction and otherwise undone by the next "
     "active post action (the oracle then demands the values from the last point where the table was empty; with an empty "
     "table at test start that is literally the property's clause)",
+    "a plugin fails a test from its pre action through result.addFailure; a TERMINATING failure (test.fail / FAIL) raised in a pre "
+    "action escapes TestRegistry::runAllTests as an exception - body and all post actions are skipped (confirmed, not driven)",
     "a plugin object is installed at most once at a time (installing a linked object again makes the chain cyclic)",
     "removePluginByName is not called with the sentinel's own name \"null\" (see report: that unlinks the sentinel)",
     "plugin names pairwise different for the remove-exactly claim (with duplicates up to three plugins go; modelled, not claimed)",
 ]
-RULE = ("chains of 0-8 recording plugins + the real SetPointerPlugin at a random position, random enable patterns, "
+RULE = ("52 pointers of four types (void*, function pointer, double*, int**) through the same macro; tests also run in a "
+        "separate process, as IgnoredUtestShell and run-ignored; plugins that report a failure from their pre action; "
+        "countPlugins/getFirstPlugin/getPluginByName (also by the sentinel's name) observed after every chain operation; "
+        "chains of 0-8 recording plugins + the real SetPointerPlugin at a random position, random enable patterns, "
         "install/remove/enable/disable/reset/get interleaved with 1-10 consecutive scripted tests doing 0-40 UT_PTR_SET "
         "redirections over 40 pointers (targets drawn from a small subset so repeats are the rule; 32, 33 and more entries "
         "frequent) and ending by pass / FAIL / FAIL_TEXT_C / std::runtime_error / throw 42; the pointer plugin is "
@@ -31,6 +36,12 @@ RULE = ("chains of 0-8 recording plugins + the real SetPointerPlugin at a random
 
 OUTCOMES = ["pass", "pass", "fail", "failc", "throw", "throwint"]
 NAMES = ["p0", "p1", "p2", "p3", "p4", "p5", "p6", "p7"]
+
+
+def run_line(rng, outcomes=OUTCOMES):
+    x = rng.random()
+    kind = "" if x < 0.75 else " sep" if x < 0.87 else " ign" if x < 0.95 else " runign"
+    return "run %s%s" % (rng.choice(outcomes), kind)
 
 
 def gen_test(rng):
@@ -45,11 +56,16 @@ def gen_test(rng):
         n = 33
     else:
         n = rng.randint(34, 40)
-    pool = rng.sample(range(40), rng.choice([1, 2, 3, 8, 40]))
-    return ["set %d %d" % (rng.choice(pool), rng.randrange(64)) for _ in range(n)] + ["run %s" % rng.choice(OUTCOMES)]
+    # 52 pointers: 0..39 void*, 40..43 function pointers, 44..47 double*, 48..51 int**
+    pool = rng.sample(range(52), rng.choice([1, 2, 3, 8, 52]))
+    if rng.random() < 0.3:
+        pool = rng.sample(range(40, 52), rng.choice([1, 3, 12]))      # the typed pointers only
+    return ["set %d %d" % (rng.choice(pool), rng.randrange(64)) for _ in range(n)] + [run_line(rng)]
 
 
 def name_of(r):
+    if r >= 20:
+        return "f%d" % (r - 20)                                 # the plugins that fail in their pre action
     return "p%d" % (r if r < 8 else (3 if r == 8 else 0))      # objects 8 and 9 duplicate the names p3 and p0
 
 
@@ -58,6 +74,8 @@ def gen_case(rng, ntests, with_set=True, dup=False, malformed=False):
     object that is already linked (that would make the chain cyclic)."""
     ops = []
     ids = list(range(8)) + ([8, 9] if dup else [])
+    if rng.random() < 0.25:
+        ids += [20, 21]
     first = rng.sample(ids, min(rng.randint(0, 8), len(ids)))
     installed = []
     setpos = rng.randint(0, len(first)) if with_set else -1
@@ -90,7 +108,7 @@ def gen_case(rng, ntests, with_set=True, dup=False, malformed=False):
                 ops.append("remove %s" % name)
                 installed = [q for q in installed if name_of(q) != name]
             elif x < 0.80:
-                ops.append("get %s" % rng.choice(NAMES + ["nosuch", "SetPointerPlugin"]))
+                ops.append("get %s" % rng.choice(NAMES + ["nosuch", "SetPointerPlugin", "null", "f0"]))
             elif x < 0.84:
                 ops.append("reset")
                 installed = []
@@ -112,7 +130,7 @@ def gen_case(rng, ntests, with_set=True, dup=False, malformed=False):
 
 
 def small_test(rng, pool, nmax=2, outcomes=("pass", "fail")):
-    return ["set %d %d" % (rng.choice(pool), rng.randrange(64)) for _ in range(rng.randint(1, nmax))] + ["run %s" % rng.choice(outcomes)]
+    return ["set %d %d" % (rng.choice(pool), rng.randrange(64)) for _ in range(rng.randint(1, nmax))] + [run_line(rng, outcomes)]
 
 
 def gen_setlife(rng):
@@ -120,7 +138,7 @@ def gen_setlife(rng):
     index keeps growing, also up to the limit across tests), then either the same plugin becomes active again or
     it is removed by name and a NEWLY CONSTRUCTED one is installed, then short tests on the same few pointers"""
     ops = []
-    pool = rng.sample(range(40), rng.choice([1, 2, 3]))
+    pool = rng.sample(range(52), rng.choice([1, 2, 3]))
     recs = rng.sample(range(8), rng.randint(0, 3))
     for r in recs[:len(recs) // 2]:
         ops.append("install %d" % r)
@@ -199,11 +217,18 @@ def observe(r, rep):
             locs.append(l.split()[2])
         elif l.startswith("> run "):
             rep.count("branch.outcome_" + l.split()[2])
+            rep.count("branch.run_" + l.split()[3])
+            if any(int(x) >= 40 for x in locs):
+                rep.count("branch.typed_pointer_redirected")
             if len(set(locs)) < len(locs):
                 rep.count("branch.repeated_target")
             if len(locs) > 32:
                 rep.count("branch.more_than_limit")
             locs = []
+        elif l.startswith("> install ") and l.endswith("failpre"):
+            rep.count("branch.failing_pre_plugin_installed")
+        elif l.startswith("got sentinel"):
+            rep.count("branch.lookup_sentinel")
         elif l.startswith("> remove "):
             rep.count("branch.remove")
         elif l.startswith("pre ") and l != "pre -":
